@@ -69,6 +69,28 @@ PROPS = {
         ],
         "assumptions": ASSUME_COMMON,
     },
+    "C09": {
+        "level": "exploration",
+        "design_ref": "§6 C09",
+        "level_text": L_EXPL + "; every response of a concurrent, pipelined, arbitrarily framed workload is compared with the value the client encoded; isolation is judged on uid carried in header, path, query and body plus peer address; the evidence reports the handler concurrency actually observed",
+        "level_note": "schedules are those the stress run produced (worker counts 1/2/4/16, seeded handler sleeps); HTTP/2 multiplexing is not driven; NaN/infinite floats and multipart epilogues are outside the generated domain",
+        "technique": "runtime monitoring: typed echo handlers on a real server + generated values x legal encodings x framings x pipelining, compared at the client boundary; event-log sweep for concurrency and exactly-one entry per request",
+        "engines": [
+            {"name": "c09-echo"},
+        ],
+        "assumptions": ASSUME_COMMON,
+    },
+    "C10": {
+        "level": "exploration",
+        "design_ref": "§6 C10",
+        "level_text": L_EXPL + "; every generated input is undecodable by construction, so any 2xx/5xx answer, missing response, panic or handler entry (event log) is a refutation with the request bytes as witness",
+        "level_note": "only unambiguously invalid classes are generated (borderline numerals such as +5 or 007 are not classed); 'handler never invoked' is judged from H_ENTER events written by the harness handlers",
+        "technique": "runtime monitoring: invalid-by-construction requests against a real server, response status/format oracle plus event-log check that no handler entry exists for the request id",
+        "engines": [
+            {"name": "c10-invalid"},
+        ],
+        "assumptions": ASSUME_COMMON,
+    },
     "C06": {
         "level": "exploration",
         "design_ref": "§6 C06",
